@@ -6,7 +6,9 @@
                   current_tech) inside get_action_mask, self.tech_costs[tech] inside _get_reward and
                   td["techs"][batch, tech] inside check_solution_validity raise once the index reaches the
                   number of technicians.  A raise is [stepok = false] / [None].
-     fx = true    the repaired behaviour (index clamped to the last technician at these three places).
+     fx = true    the repaired behaviour (index clamped to the last technician at these three places; fix 9849631).
+   The checker additionally refuses customers after m or more depot visits (fix 335bbfb) -- for fx = false this adds
+   nothing, the index raises there.
    [svrp_repaired] below says which of the two the correspondence check runs against the current source tree. *)
 From Coq Require Import ZArith List Bool Lia ZifyBool Arith.
 From RL4CO Require Import Base.Num Base.EnvSig Base.SortNat.
@@ -91,7 +93,9 @@ Section Model.
     match legs i 0%nat 0%nat acts with Some v => Some (- v) | None => None end.
 
   (* check_solution_validity: sorted actions = zeros ++ [1..n]; then, at every depot visit, the customers since the
-     previous one against the skill of technician 0, 1, ...  The customers after the LAST depot visit are not looked at. *)
+     previous one: they must be none once as many depot visits as technicians have gone by ("More routes than
+     technicians", fix 335bbfb; in the unrepaired code the technician index raises there anyway), and within the skill of
+     technician 0, 1, ...  The customers after the LAST depot visit are not looked at. *)
   Definition ssorted_ok (i : svrp_inst) (acts : list nat) : bool :=
     let n := sn_of i in
     let s := sort_nat acts in
@@ -105,7 +109,9 @@ Section Model.
         if Nat.eqb a 0
         then match tidx (sm_of i) tech with
              | None => false                                      (* td["techs"][batch, tech] raises IndexError *)
-             | Some q => forallb (fun j => sskill i j <=? tskill i q) seg && skill_loop i (S tech) [] r
+             | Some q =>
+                 (Nat.ltb tech (sm_of i) || match seg with [] => true | _ => false end) &&   (* tech < m or each[1] == start *)
+                 forallb (fun j => sskill i j <=? tskill i q) seg && skill_loop i (S tech) [] r
              end
         else skill_loop i tech (a :: seg) r
     end.
